@@ -87,10 +87,10 @@ func runPath(ld *Loaded, cfg *HarnessCfg, fn *ssa.Function, s, s2 *Solver, prefi
 			case pathEnd:
 				m.endReason = e.reason
 			case abortErr:
-				abort = e.msg
+				abort = e.msg + m.where()
 				m.endReason = "abort"
 			default:
-				abort = fmt.Sprintf("engine panic: %v\n%s", r, debug.Stack())
+				abort = fmt.Sprintf("engine panic: %v%s\n%s", r, m.where(), debug.Stack())
 				m.endReason = "abort"
 			}
 		}
@@ -309,4 +309,21 @@ func dbg(f string, a ...interface{}) {
 	if os.Getenv("GOSYM_DEBUG") != "" {
 		fmt.Fprintf(os.Stderr, f+"\n", a...)
 	}
+}
+
+func (m *Machine) where() string {
+	if m.cur == nil || len(m.cur.frames) == 0 {
+		return ""
+	}
+	s := " @"
+	for i := len(m.cur.frames) - 1; i >= 0 && i >= len(m.cur.frames)-4; i-- {
+		fr := m.cur.frames[i]
+		if fr.pc < len(fr.block.Instrs) {
+			in := fr.block.Instrs[fr.pc]
+			s += fmt.Sprintf(" %s[%s: %s]", fr.fn.String(), m.ld.fset.Position(in.Pos()), in.String())
+		} else {
+			s += " " + fr.fn.String()
+		}
+	}
+	return s
 }
